@@ -22,6 +22,8 @@ package main
 // throw-away directory that is the worker's cwd, HOME and TMPDIR, holding
 //   zvcanary   a file whose content is a secret token (a legal symbol, so that a
 //              reader that parses the file quotes it in its error message),
+//   zvcanary2  a file of zygo source, (stop "<the same secret>"): evaluating it
+//              raises an error whose text carries the secret,
 //   zvmarker   must not appear (the canary shell command is `touch zvmarker`),
 //   zvcreate   must not appear (target of the write shapes); nor anything else,
 // with the environment variable ZV_CANARY_ENV holding a second secret.  The
@@ -68,7 +70,12 @@ import (
 
 var sbCfgs = []string{"bare", "std", "cmd", "full"}
 
-var sbRoutes = []string{"direct", "alias", "eval", "sym", "apply", "macro", "builder", "fn"}
+// The last three routes have the call COMPILED AND RUN INSIDE A DUPLICATE of the
+// interpreter (env.Duplicate()): a macro body that is not a template runs at
+// expansion time in a duplicate and compiles the arguments of its calls there
+// (macrun; also under macexpand), and the expectError builder evaluates both
+// of its arguments in a duplicate (expect).
+var sbRoutes = []string{"direct", "alias", "eval", "sym", "apply", "macro", "builder", "fn", "macrun", "macexpand", "expect"}
 
 type sbArg struct {
 	text string
@@ -86,6 +93,7 @@ var sbShapes = []sbShape{
 	{"none", nil},
 	{"path-str", []sbArg{{`"` + sbPH + `/zvcanary"`, false}}},
 	{"path-sym", []sbArg{{"zvcanary", true}}},
+	{"path2-str", []sbArg{{`"` + sbPH + `/zvcanary2"`, false}}},
 	{"path-arr", []sbArg{{`["` + sbPH + `/zvcanary"]`, false}}},
 	{"val-path", []sbArg{{`"zvdata"`, false}, {`"` + sbPH + `/zvcreate"`, false}}},
 	{"path-val", []sbArg{{`"` + sbPH + `/zvcreate"`, false}, {`"zvdata"`, false}}},
@@ -160,6 +168,12 @@ func sbRender(name, route string, args []sbArg, uniq string) []string {
 		return []string{"(infix [(" + name + a + ")])"}
 	case "fn":
 		return []string{"((fn [] (" + name + a + ")))"}
+	case "macrun":
+		return []string{"(defmac zvmrun" + uniq + " [] (str (" + name + a + ")))", "(zvmrun" + uniq + ")"}
+	case "macexpand":
+		return []string{"(defmac zvmexp" + uniq + " [] (str (" + name + a + ")))", "(macexpand (zvmexp" + uniq + "))"}
+	case "expect":
+		return []string{"(expectError \"zvnone\" (" + name + a + "))", "(expectError (str (" + name + a + ")) 1)"}
 	}
 	return []string{"(" + name + a + ")"}
 }
@@ -402,9 +416,10 @@ func sbCmdDefined(zygoBin string, names []string) (map[string]bool, bool) {
 // ---------------------------------------------------------------- observation
 
 const (
-	sbCanary = "zvcanary"
-	sbMarker = "zvmarker"
-	sbEnvVar = "ZV_CANARY_ENV"
+	sbCanary  = "zvcanary"
+	sbCanary2 = "zvcanary2" // zygo source: evaluating it raises an error that carries the secret
+	sbMarker  = "zvmarker"
+	sbEnvVar  = "ZV_CANARY_ENV"
 )
 
 func sbSecrets(seed int64, stream uint64) (string, string) {
@@ -473,7 +488,8 @@ func (w *sbWatch) reset() {
 		os.RemoveAll(filepath.Join(w.dir, e.Name()))
 	}
 	os.WriteFile(filepath.Join(w.dir, sbCanary), []byte(w.fileSecret+"\n"), 0644)
-	w.canaryStat = statSig(filepath.Join(w.dir, sbCanary))
+	os.WriteFile(filepath.Join(w.dir, sbCanary2), []byte("(stop \""+w.fileSecret+"\")\n"), 0644)
+	w.canaryStat = statSig(filepath.Join(w.dir, sbCanary)) + " " + statSig(filepath.Join(w.dir, sbCanary2))
 	w.drain()
 }
 
@@ -515,7 +531,7 @@ func (w *sbWatch) collect(texts ...string) map[string]bool {
 	for name, mask := range w.drain() {
 		switch name {
 		case "":
-		case sbCanary:
+		case sbCanary, sbCanary2:
 			if mask&(syscall.IN_OPEN|syscall.IN_ACCESS) != 0 {
 				evs["open"] = true
 			}
@@ -535,7 +551,7 @@ func (w *sbWatch) collect(texts ...string) map[string]bool {
 		ents, _ := os.ReadDir(w.dir)
 		for _, e := range ents {
 			switch e.Name() {
-			case sbCanary:
+			case sbCanary, sbCanary2:
 			case sbMarker:
 				evs["marker"] = true
 			default:
@@ -543,7 +559,7 @@ func (w *sbWatch) collect(texts ...string) map[string]bool {
 			}
 		}
 	}
-	if statSig(filepath.Join(w.dir, sbCanary)) != w.canaryStat {
+	if statSig(filepath.Join(w.dir, sbCanary))+" "+statSig(filepath.Join(w.dir, sbCanary2)) != w.canaryStat {
 		evs["modify"] = true
 	}
 	for _, t := range texts {
@@ -1340,7 +1356,7 @@ func (g *sbGen) program(ci int) ([]string, []string) {
 	}
 	depth := 1 + r.intn(3)
 	for d := 0; d < depth; d++ {
-		switch r.intn(14) {
+		switch r.intn(16) {
 		case 0:
 			form = "(eval (quote " + form + "))"
 		case 1:
@@ -1373,6 +1389,12 @@ func (g *sbGen) program(ci int) ([]string, []string) {
 			form = "(for [(def zvi 0) (< zvi 1) (def zvi (+ zvi 1))] " + form + ")"
 		case 13:
 			form = "(letseq [zvy 1 zvx " + form + "] zvx)"
+		case 14: // run inside a duplicate: body of a macro that is not a template
+			m := g.fresh("zvr")
+			pre = append(pre, "(defmac "+m+" [] (str "+form+"))")
+			form = "(" + m + ")"
+		case 15: // evaluated inside a duplicate by the expectError builder
+			form = "(expectError \"zvnone\" " + form + ")"
 		}
 	}
 	return append(pre, form), used
